@@ -134,7 +134,7 @@ def main(argv, tier):
         with slot_lock:
             slot = slots.pop()
         try:
-            base = f"/tmp/selftest-{slot}"
+            base = f"/tmp/selftest-{os.getpid()}-{slot}"   # per-process: concurrent selftests must not share scratch space
             wt, tgt = f"{base}/repo", f"{base}/target"
             if not os.path.isdir(wt):
                 os.makedirs(base, exist_ok=True)
@@ -166,7 +166,7 @@ def main(argv, tier):
     with ThreadPoolExecutor(max_workers=jobs) as ex:
         list(ex.map(worker, names))
     for slot in range(jobs):
-        base = f"/tmp/selftest-{slot}"
+        base = f"/tmp/selftest-{os.getpid()}-{slot}"
         if os.path.isdir(base):
             sh(f"git -C /repo worktree remove --force {base}/repo")
             shutil.rmtree(base, ignore_errors=True)
